@@ -13,7 +13,7 @@ theorem guarded_resumeCfg (cfg : Cfg) (hm kt : Bool) (l : Path) : guarded (resum
 theorem finalPaths_resumeCfg (cfg : Cfg) (hm kt : Bool) : finalPaths (resumeCfg cfg hm kt) = finalPaths cfg := rfl
 
 theorem WF_resumeCfg {cfg : Cfg} (hm kt : Bool) (wf : WF cfg) : WF (resumeCfg cfg hm kt) :=
-  ⟨wf.nd, wf.mnd, wf.bnd, wf.m_iff, wf.b_iff⟩
+  ⟨wf.nd, wf.mnd, wf.bnd, wf.m_iff, wf.b_sub⟩
 
 theorem J_resumeCfg {cfg : Cfg} (hm kt : Bool) {fs : FS} : J (resumeCfg cfg hm kt) fs ↔ J cfg fs := by
   simp only [J, guarded_resumeCfg]
